@@ -82,3 +82,110 @@ invariant(c, 2, "equation", lambda it, i, key, final_true_values, final_false_va
     Implies(And(keydef(v, key), ExistsIdx(it, lambda j, x: nzq(v, x), upto=i)), admits(key, final_true_values, v)),
     Implies(And(keydef(v, key), ForallIdx(it, lambda j, x: Not(nzq(v, x)), upto=i)), admits(key, final_false_values, v))),
     label="or_acc")
+
+
+# ---- exact boolean structure of _get_asserted (C02 exclusion clause, C03): the result of a conjunction / disjunction / negation
+# is exactly the combination of the results of its operands ------------------------------------------------------------------
+from pyvc.values import fresh_name, VRef, VList   # noqa: E402
+from pyvc.dsl import REGISTRY                      # noqa: E402
+NULLV = z3.Function("NULLV", z3.StringSort(), AbsVal)
+GA_T = z3.Function("GA_T", z3.StringSort(), z3.IntSort(), AbsVal)      # names of _get_asserted(key, node)[0] / [1]
+GA_F = z3.Function("GA_F", z3.StringSort(), z3.IntSort(), AbsVal)
+CE_LEN = z3.Function("CE_LEN", z3.IntSort(), z3.IntSort(), z3.IntSort())          # compute_equations(node, cls): the list ...
+CE_AT = z3.Function("CE_AT", z3.IntSort(), z3.IntSort(), z3.IntSort(), z3.IntSort())
+CE_UNK = z3.Function("CE_UNK", z3.IntSort(), z3.IntSort(), z3.BoolSort())         # ... and the unknown-operand flag
+PURE = ("naming clause: the function is deterministic in (key, stack-value node); the stack AST is immutable once built")
+ensures(REGISTRY[G + "_null_set"], "name", lambda key, result: VBool(result.term == NULLV(_s(key))), naming=True)
+
+
+def _cls_id(node_ins):
+    from pyvc.values import to_term, TCls
+    return to_term(node_ins, TCls(object))
+
+
+def _ce_named(root, node_ins, result):
+    ctx = current()
+    lst, flag = result[0], result[1]
+    n = ctx.ex.list_len(lst, ctx.st).term
+    j = z3.Int(fresh_name("cj"))
+    r, cid = root.term, _cls_id(node_ins)
+    el = ctx.ex.list_get(lst, j, ctx.st).term
+    body = z3.Implies(z3.And(j >= 0, j < n), el == CE_AT(r, cid, j))
+    try:
+        q = z3.ForAll([j], body, patterns=[CE_AT(r, cid, j)])
+    except z3.Z3Exception:
+        q = z3.ForAll([j], body)
+    return VBool(z3.And(n == CE_LEN(r, cid), n >= 0, q, flag.term == CE_UNK(r, cid)))
+
+
+ensures(REGISTRY["tealer/analyses/utils/stack_ast_builder.py::compute_equations"], "name",
+        lambda root, node_ins, result: _ce_named(root, node_ins, result), naming=True)
+ensures(REGISTRY[G + "_get_asserted_single"], "name", lambda key, ins_stack_value, result: VBool(z3.And(
+    result[0].term == GA_T(_s(key), ins_stack_value.term), result[1].term == GA_F(_s(key), ins_stack_value.term))), naming=True)
+GAC = REGISTRY[G + "_get_asserted"]
+ensures(GAC, "name", lambda key, ins_stack_value, result: VBool(z3.And(
+    result[0].term == GA_T(_s(key), ins_stack_value.term), result[1].term == GA_F(_s(key), ins_stack_value.term))), naming=True)
+
+
+def _cls_of(name):
+    from pyvc.loader import class_table
+    ct = class_table()
+    return ct.lo[ct.cls(name)]
+
+
+def _g(key, a, x):
+    return GAMMA(_s(key), a, x)
+
+
+def _comb(key, sv, cls_name, which, upto=None, conj=True):
+    """x in every (conj) / some (not conj) gamma of the named results of the operands of the And/Or node sv"""
+    r, cid = sv.term, z3.IntVal(_cls_of(cls_name))
+    x = z3.Int(fresh_name("bx"))
+    j = z3.Int(fresh_name("bj"))
+    n = CE_LEN(r, cid) if upto is None else upto
+    gj = _g(key, which(_s(key), CE_AT(r, cid, j)), x)
+    return x, (z3.ForAll([j], z3.Implies(z3.And(j >= 0, j < n), gj)) if conj else z3.Exists([j], z3.And(j >= 0, j < n, gj)))
+
+
+def _and_exact(key, sv, result):
+    cid = z3.IntVal(_cls_of("And"))
+    unk = CE_UNK(sv.term, cid)
+    x, allt = _comb(key, sv, "And", GA_T, conj=True)
+    x2, somef = _comb(key, sv, "And", GA_F, conj=False)
+    return z3.And(z3.ForAll([x], _g(key, result[0].term, x) == allt),
+                  z3.Implies(unk, z3.ForAll([x2], _g(key, result[1].term, x2))),
+                  z3.Implies(z3.Not(unk), z3.ForAll([x2], _g(key, result[1].term, x2) == z3.Or(_g(key, NULLV(_s(key)), x2), somef))))
+
+
+def _or_exact(key, sv, result):
+    cid = z3.IntVal(_cls_of("Or"))
+    unk = CE_UNK(sv.term, cid)
+    x, allf = _comb(key, sv, "Or", GA_F, conj=True)
+    x2, somet = _comb(key, sv, "Or", GA_T, conj=False)
+    return z3.And(z3.ForAll([x], _g(key, result[1].term, x) == allf),
+                  z3.Implies(unk, z3.ForAll([x2], _g(key, result[0].term, x2))),
+                  z3.Implies(z3.Not(unk), z3.ForAll([x2], _g(key, result[0].term, x2) == z3.Or(_g(key, NULLV(_s(key)), x2), somet))))
+
+
+def _ins_of(sv):
+    ctx = current()
+    K = ctx.ex.ct.cls("KnownStackValue")
+    ins, _ = ctx.ex.read_field(VRef(sv.term, K, ctx.ex), K, "_ins", ctx.st)
+    return ins
+
+
+ensures(GAC, "and_exact", lambda key, ins_stack_value, result: Implies(IsInstance(_ins_of(ins_stack_value), "And"),
+                                                                      lambda: VBool(_and_exact(key, ins_stack_value, result))),
+        note="a conjunction: the true set is exactly the intersection of the operands' true sets; the false set is the union of their "
+             "false sets (with the null set), or everything if an operand is unknown", tags=["C02", "C03", "C01"])
+ensures(GAC, "or_exact", lambda key, ins_stack_value, result: Implies(IsInstance(_ins_of(ins_stack_value), "Or"),
+                                                                     lambda: VBool(_or_exact(key, ins_stack_value, result))),
+        note="a disjunction: dually", tags=["C02", "C03", "C01"])
+invariant(GAC, 1, "equation", lambda it, i, key, ins_stack_value, final_true_values, final_false_values: VBool(z3.And(
+    (lambda p: z3.ForAll([p[0]], _g(key, final_true_values.term, p[0]) == p[1]))(_comb(key, ins_stack_value, "And", GA_T, upto=i.term, conj=True)),
+    (lambda p: z3.ForAll([p[0]], _g(key, final_false_values.term, p[0]) == z3.Or(_g(key, NULLV(_s(key)), p[0]), p[1])))(
+        _comb(key, ins_stack_value, "And", GA_F, upto=i.term, conj=False)))), label="and_exact_acc", tags=["C02", "C03", "C01"])
+invariant(GAC, 2, "equation", lambda it, i, key, ins_stack_value, final_true_values, final_false_values: VBool(z3.And(
+    (lambda p: z3.ForAll([p[0]], _g(key, final_false_values.term, p[0]) == p[1]))(_comb(key, ins_stack_value, "Or", GA_F, upto=i.term, conj=True)),
+    (lambda p: z3.ForAll([p[0]], _g(key, final_true_values.term, p[0]) == z3.Or(_g(key, NULLV(_s(key)), p[0]), p[1])))(
+        _comb(key, ins_stack_value, "Or", GA_T, upto=i.term, conj=False)))), label="or_exact_acc", tags=["C02", "C03", "C01"])
